@@ -204,22 +204,93 @@ def _conditional(call, stmt):
     return False
 
 
+def printer_attrs(m, base):
+    """self.<attr> read by any printer of a node class."""
+    out = set()
+    for k in m.classes:
+        if not m.issub(k, base):
+            continue
+        for nm in ("tostr", "tofortran", "tostr_a", "__str__"):
+            if nm in m.classes[k]["own"]:
+                f = m.method(k, nm)
+                if f is not None:
+                    out |= {x.attr for x in A.body_nodes(f.node) if isinstance(x, ast.Attribute) and isinstance(x.value, ast.Name) and x.value.id == "self"
+                            and isinstance(x.ctx, ast.Load)}
+    return out
+
+
 def r3_no_custom_protocol(m):
-    r = RuleResult("C18.R3", "no node class overrides the copy/pickle protocol beyond __getnewargs__/__new__")
+    r = RuleResult("C18.R3", "no class of a tree overrides the copy/pickle protocol in a way that loses what the printers read or that its subclasses cannot follow")
     r.floor = 300
     base = m.key("Base", UTILS)
+    pattrs = printer_attrs(m, base)
     for k in sorted(m.classes):
         c = m.classes[k]
         if not m.issub(k, base):
             continue
         r.instances += 1
         hooks = [h for h in COPY_HOOKS if h in c["own"]]
-        if hooks:
-            r.error("%s defines %s: an unrecognised copy protocol, the rules of C18 cannot decide it" % (c["name"], hooks))
-        else:
+        if not hooks:
             r.ob(True)
-    r.sample("no node class defines any of %s" % (COPY_HOOKS,))
-    # Base.__init__ must not take required extra arguments (copy does not call it, normal construction does)
+            continue
+        for h in hooks:
+            if h == "__getstate__":
+                f = m.method(k, h)
+                lost = set()
+                recognised = True
+                for n in A.body_nodes(f.node):
+                    if isinstance(n, ast.Assign) and isinstance(n.targets[0], ast.Subscript) and isinstance(n.targets[0].slice, ast.Constant) \
+                            and isinstance(n.value, ast.Constant):
+                        lost.add(n.targets[0].slice.value)
+                    if isinstance(n, ast.Call) and isinstance(n.func, ast.Attribute) and n.func.attr == "pop" and n.args and isinstance(n.args[0], ast.Constant):
+                        lost.add(n.args[0].value)
+                    if isinstance(n, ast.Delete):
+                        for t in n.targets:
+                            if isinstance(t, ast.Subscript) and isinstance(t.slice, ast.Constant):
+                                lost.add(t.slice.value)
+                hit = sorted(a for a in lost if a in pattrs)
+                if hit:
+                    r.ob(False)
+                    r.fail("%s.__getstate__|%s" % (c["name"], ",".join(hit)), "%s.__getstate__ drops %s from the copied state, but the printers "
+                           "read it (labels and construct names live in .item): the copy prints different Fortran" % (c["name"], hit), m.loc(f))
+                elif not lost:
+                    r.error("%s defines __getstate__ in a form the rules of C18 cannot decide" % c["name"])
+                else:
+                    r.ob(True, "%s.__getstate__ drops %s, none of which a printer reads" % (c["name"], sorted(lost)))
+            else:
+                r.error("%s defines %s: an unrecognised copy protocol, the rules of C18 cannot decide it" % (c["name"], h))
+    r.sample("no node class defines any of %s; printers read %s" % (COPY_HOOKS, sorted(pattrs)))
+    # reader items hang off every statement node (.item): their protocol must be followable by every subclass
+    RFM = "fparser.common.readfortran"
+    for k in sorted(m.classes):
+        c = m.classes[k]
+        if c["module"] != RFM:
+            continue
+        for h in COPY_HOOKS:
+            if h not in c["own"]:
+                continue
+            r.instances += 1
+            f = m.method(k, h)
+            ret = A.returns(f.node) if f else []
+            if h == "__reduce__" and len(ret) == 1 and isinstance(ret[0].value, ast.Tuple) and len(ret[0].value.elts) >= 2 \
+                    and isinstance(ret[0].value.elts[1], ast.Tuple) and A.text(ret[0].value.elts[0]) in ("self.__class__", "type(self)"):
+                nargs = len(ret[0].value.elts[1].elts)
+                bad = []
+                for k2 in sorted(m.classes):
+                    if m.issub(k2, k):
+                        init = m.method(k2, "__init__")
+                        if init is None:
+                            continue
+                        ps = A.param_names(init.node)[1:]
+                        req = [p for p in ps if p not in A.param_defaults(init.node)]
+                        if not (len(req) <= nargs <= len(ps)):
+                            bad.append((m.classes[k2]["name"], len(ps)))
+                r.ob(not bad, "%s.__reduce__ rebuilds with %d arguments" % (c["name"], nargs))
+                if bad:
+                    r.fail("%s.__reduce__|%s" % (c["name"], bad[0][0]), "%s.__reduce__ re-creates `self.__class__` with %d arguments, but its subclass "
+                           "%s takes %d: copying or pickling any tree that holds such an item raises TypeError" % (c["name"], nargs, bad[0][0], bad[0][1]), m.loc(f))
+            else:
+                r.error("%s.%s: an unrecognised copy protocol on a reader item class" % (c["name"], h))
     return r
 
 
